@@ -608,8 +608,8 @@ class UnionMetaType(StructureMetaType):
         # Try to write by largest field
         for field in fields:
             if isinstance(field.type, StructureMetaType) and field.name is None:
-                # Prefer to write regular fields initially
-                anonymous_struct = field
+                # Prefer to write regular fields initially (and of the anonymous ones the largest)
+                anonymous_struct = anonymous_struct or field
                 continue
 
             # Write the value, at the offset the member has in the union
